@@ -396,6 +396,33 @@ type PodKnobs struct {
 	DailyMinFiles    int    `json:"daily_min_files"`
 	ConsumedHook     string `json:"consumed_hook,omitempty"` // "" | ok | err  (Manager.SetOnConsumedInputs => ParentFinalizesManifest)
 	NoOrderBy        bool   `json:"no_order_by,omitempty"`   // empty default sort keys
+	// ObjStore hides the LocalBackend behind an object-store facade: List has
+	// key-prefix semantics (as S3/Azure) and none of LocalBackend's optional
+	// interfaces (directory listing/removal, batch delete, object listing) are
+	// visible, so arc takes its generic storage.Backend code paths.
+	ObjStore bool `json:"obj_store,omitempty"`
+}
+
+// objStore is that facade. Everything but List goes straight to the real
+// LocalBackend.
+type objStore struct {
+	storage.Backend
+}
+
+func (o *objStore) List(ctx context.Context, prefix string) ([]string, error) {
+	all, err := o.Backend.List(ctx, "")
+	if err != nil {
+		return nil, err
+	}
+	var out []string
+	for _, k := range all {
+		k = filepath.ToSlash(k)
+		if strings.HasPrefix(k, prefix) {
+			out = append(out, k)
+		}
+	}
+	sort.Strings(out)
+	return out, nil
 }
 
 type jobRec struct {
@@ -417,6 +444,7 @@ type pod struct {
 	tmpDir  string
 	knobs   PodKnobs
 	local   *storage.LocalBackend
+	backend storage.Backend // what arc components get: local, or the object-store facade over it
 	mgr     *compaction.Manager
 	boots   int
 	// subprocess emulation
@@ -440,12 +468,16 @@ func (p *pod) boot() {
 		panic(err)
 	}
 	p.local = local
-	var tiers []compaction.Tier
-	tiers = append(tiers, compaction.NewHourlyTier(&compaction.HourlyTierConfig{StorageBackend: local, MinAgeHours: 1, MinFiles: p.knobs.HourlyMinFiles, Enabled: true, Logger: harnessLogger()}))
-	if p.knobs.Daily {
-		tiers = append(tiers, compaction.NewDailyTier(&compaction.DailyTierConfig{StorageBackend: local, MinAgeHours: 24, MinFiles: p.knobs.DailyMinFiles, Enabled: true, Logger: harnessLogger()}))
+	p.backend = local
+	if p.knobs.ObjStore {
+		p.backend = &objStore{Backend: local}
 	}
-	mc := &compaction.ManagerConfig{StorageBackend: local, LockManager: compaction.NewLockManager(), MaxConcurrent: p.knobs.MaxConcurrent,
+	var tiers []compaction.Tier
+	tiers = append(tiers, compaction.NewHourlyTier(&compaction.HourlyTierConfig{StorageBackend: p.backend, MinAgeHours: 1, MinFiles: p.knobs.HourlyMinFiles, Enabled: true, Logger: harnessLogger()}))
+	if p.knobs.Daily {
+		tiers = append(tiers, compaction.NewDailyTier(&compaction.DailyTierConfig{StorageBackend: p.backend, MinAgeHours: 24, MinFiles: p.knobs.DailyMinFiles, Enabled: true, Logger: harnessLogger()}))
+	}
+	mc := &compaction.ManagerConfig{StorageBackend: p.backend, LockManager: compaction.NewLockManager(), MaxConcurrent: p.knobs.MaxConcurrent,
 		MaxFilesPerBatch: p.knobs.MaxFilesPerBatch, TempDirectory: p.tmpDir, Tiers: tiers, Logger: harnessLogger(),
 		Threads: 1, MemoryLimit: "256MB"} // compaction.threads / compaction.memory_limit: one DuckDB thread per job keeps the simulation cheap
 	if p.knobs.NoOrderBy {
